@@ -107,8 +107,8 @@ def run(ctx):
     res.floor("R3.3", "Ok(()) construction in validate", len(ok_rets), 1)
     vc = vd.calls_to(r"Validator::validate_conflicts$")
     vr = vd.calls_to(r"Validator::validate_required$")
-    res.floor("R3.3", "validate_conflicts call", len(vc), 1)
-    res.floor("R3.3", "validate_required call", len(vr), 1)
+    require(fx, res, "R3.3", "conflicts-on-every-ok-path", vd, r"Validator::validate_conflicts$", len(vc), 1, "validate no longer runs validate_conflicts")
+    require(fx, res, "R3.3", "required-on-every-ok-path", vd, r"Validator::validate_required$", len(vr), 1, "validate no longer runs validate_required")
     if vc and ok_rets:
         miss = vd.must_pass([c.bb for c in vc], to=ok_rets)
         res.check(not miss, "R3.3", "conflicts-on-every-ok-path", vd.where(), "every Ok(()) path passes validate_conflicts", "validate can return Ok(()) without validate_conflicts")
